@@ -254,8 +254,96 @@ class Verdict:
         return add(st, ("verdict_checked", M))
 
     def on_event(self, eng, ev, st):
-        if ev.kind in ("set", "tblwrite", "user", "handle_drop", "indirect") and any(f[0] == "anyres" for f in st.flags):
-            return rem(st, lambda f: f[0] == "anyres")
+        if ev.kind in ("set", "tblwrite", "user", "handle_drop", "indirect") and any(f[0] in ("anyres", "vd_iter", "vd_passed", "vd_loop") for f in st.flags):
+            return rem(st, lambda f: f[0] in ("anyres", "vd_iter", "vd_passed", "vd_loop"))
+        return None
+
+    # ---- the verdict written as find(..) ----------------------------------
+    def on_variant(self, eng, st, inner, v, b):
+        if inner[0] == "call" and inner[2] in ("core::iter::Iterator::find", "core::iter::Iterator::position", "core::iter::Iterator::find_map") and len(inner[3]) >= 2 and v in ("0", "1"):
+            src = iter_source(inner[3][0])
+            if src is None or src[0] != "map":
+                return None
+            M = src[1]
+            # `find` passes a reference to the item
+            arg = ("ref", ("param", 2)) if inner[2].endswith("::find") else ("param", 2)
+            cl = self.closures.run(inner[3][1], params={2: arg})
+            if cl is None:
+                return None
+            elem = ("param", 2)
+            verdicts = [strong_vs_value(r, elem) for r in cl["returns"]]
+            if not any(x is not None for x in verdicts):
+                return None
+            self.verdict_sites.add(b)
+            eng.obl("GATE-6", "verdict", b)
+            if cl["effects"] or len(cl["returns"]) != 1 or not (verdicts[0][0] == "ok" and verdicts[0][1] == "Gt"):
+                eng.violate("GATE-6", "verdict-predicate", "the orphan test (%s) searches for something other than `strong > traced count` (or its predicate has effects)" % cl["where"], b, st)
+                return add(st, ("verdict_checked", M))
+            if v == "0":
+                return add(st, ("verdict", M), ("anyres", M, True))
+            return add(st, ("verdict_checked", M), ("anyres", M, False))
+        # the verdict written as an explicit loop over the map: bookkeeping per iteration
+        if inner[0] == "call" and inner[2] == "core::iter::Iterator::next":
+            src = iter_source(inner[3][0])
+            if src is None or src[0] != "map" or src[-1]:
+                return None
+            M, N = src[1], inner[1]
+            if v == "1":
+                return add(st, ("vd_iter", M, N))
+            if v == "0":
+                started = any(f[0] in ("vd_passed", "vd_loop") and f[1] == M and f[2] == N for f in st.flags)
+                broken = any(f[0] == "vd_broken" and f[1] == M and f[2] == N for f in st.flags)
+                st2 = rem(st, lambda f: f[0] in ("vd_iter", "vd_passed", "vd_loop", "vd_broken") and f[1] == M and f[2] == N)
+                if started and not broken:
+                    self.verdict_sites.add(b)
+                    eng.obl("GATE-6", "verdict-loop", b)
+                    return add(st2, ("verdict", M), ("anyres", M, True))
+                return st2
+        return None
+
+    def on_assume_cmp(self, eng, st, op, x, y, truth, b):
+        from interp import SWAP
+        g = counter_read(x)
+        if g is None:
+            g2 = counter_read(y)
+            if g2 is None:
+                return None
+            op, x, y, g = SWAP[op], y, x, g2
+        if g[2] != "strong":
+            return None
+        go = group_of(g[1])
+        if go is None:
+            return None
+        M, N = go
+        eo = elem_of(g[1])
+        elem = eo[0]
+        if g[1] != mk_field(mk_deref(mk_field(elem, "0", "")), "ptr", LINK):
+            return None
+        val = mk_field(elem, "1", "")
+        if not (y == mk_deref(val) or y == val):
+            return None
+        if ("vd_iter", M, N) not in st.flags:
+            return None
+        # normalise to: (strong > traced) is `ext`
+        if op == "Gt":
+            ext = truth
+        elif op == "Le":
+            ext = not truth
+        else:
+            eng.obl("GATE-6", "verdict-loop", b)
+            eng.violate("GATE-6", "verdict-predicate", "the orphan test compares a member's strong count with its traced count using `%s`; the group is orphaned iff no member has strong > traced" % op, b, st)
+            return add(st, ("vd_broken", M, N))
+        eng.obl("GATE-6", "verdict-loop", b)
+        st = rem(st, lambda f: f == ("vd_iter", M, N))
+        if ext:
+            return add(st, ("verdict_checked", M), ("vd_loop", M, N), ("anyres", M, False))
+        return add(st, ("vd_passed", M, N), ("vd_loop", M, N))
+
+    def on_site_reexec(self, eng, st, site):
+        # an iteration of a verdict loop ended without comparing the member: the loop proves nothing
+        hit = [f for f in st.flags if f[0] == "vd_iter" and f[2] == site and any(g[0] == "vd_loop" and g[1] == f[1] and g[2] == site for g in st.flags)]
+        if hit:
+            return add(st, *[("vd_broken", f[1], f[2]) for f in hit])
         return None
 
     # ---- group lowering -------------------------------------------------
@@ -286,6 +374,9 @@ class Verdict:
             amount = "zeroing"
         elif ev.cls == "dec":
             amount = self.trip_count(eng, ev, st)
+        elif ev.cls == "sub":
+            v = ev.value
+            amount = v[3] if v[0] == "bin" else v[3][1]
         else:
             amount = ev.value
         ok = False
@@ -559,12 +650,20 @@ class Trace:
                 for tflag in tests:
                     if ("assumed_false", tflag[3]) in st.flags and any(i[1] == tflag[1] for i in ins):
                         ok = True
+                if ("vis_guard_ok", P) in st.flags:
+                    ok = True
                 if not ok:
                     eng.violate("GATE-9", "expansion-without-visited-guard", "the trace expands a popped node without a `contains` test (taken false) and an `insert` on the same visited set keyed by that node", ev.b, st)
                 return add(st, ("expanded", P, ev.box))
         return None
 
     def on_assume_call(self, eng, st, c, truth, b):
+        if c[2].startswith("hashbrown::HashSet") and c[2].endswith("::insert") and len(c[3]) >= 2 and truth:
+            # `if !visited.insert(node) { continue }`: insert returned true <=> the node was not visited before
+            for f in st.flags:
+                if f[0] == "popped" and c[3][1] == f[2]:
+                    return add(st, ("vis_guard_ok", f[2]))
+            return None
         if c[2].endswith("::contains") or c[2].endswith("::contains_key"):
             if not truth:
                 return add(st, ("assumed_false", c))
@@ -760,7 +859,7 @@ class GroupPhases:
         if g is None:
             return None
         M, N = g
-        if ev.field == "strong" and ev.cls in ("dec", "zero", "other"):
+        if ev.field == "strong" and ev.cls in ("dec", "zero", "other", "sub"):
             eng.obl("TS-2", "group-lowering-order", ev.b)
             if ("group_destroyed", M) in st.flags or ("member_destroyed", M) in st.flags:
                 eng.violate("TS-2", "lowering-after-destruction", "group teardown lowers a member's strong count after values of the group have already been destroyed (their destructors saw that member alive)", ev.b, st)
@@ -838,3 +937,76 @@ class GroupPhases:
                 if key not in eng.violations:
                     eng.violations[key] = {"rule": "TS-5", "key": "group-never-released", "msg": "values are moved out of the members of a collected group, but no code releases those members' implicit weak references (their allocations are never freed)",
                                            "where": eng.where(0), "entry": eng.name, "path": []}
+
+
+class MapEmptiness:
+    """Consistency of repeated loops over the same unmodified local hash container: if one loop found
+    no element, no other loop can find one (and vice versa).  Removes paths such as "the verdict loop
+    saw an empty map, the teardown loop a non-empty one"."""
+    id = "MAPEMP"
+
+    def on_variant(self, eng, st, inner, v, b):
+        if inner[0] != "call" or inner[2] != "core::iter::Iterator::next":
+            return None
+        src = iter_source(inner[3][0])
+        if src is None or src[0] != "map" or src[-1]:
+            return None
+        M, N = src[1], inner[1]
+        if v == "1":
+            if ("m_empty", M) in st.flags or st.empty(("loc", M)) is True:
+                return False
+            return add(st, ("m_nonempty", M), ("iterating", N))
+        if v == "0":
+            if ("iterating", N) in st.flags:
+                return rem(st, lambda f: f == ("iterating", N))
+            if ("m_nonempty", M) in st.flags or st.empty(("loc", M)) is False:
+                return False
+            return add(st, ("m_empty", M))
+        return None
+
+    def on_tblwrite(self, eng, ev, st):
+        if ev.get("box") is None and any(f[0] in ("m_empty", "m_nonempty") for f in st.flags):
+            return rem(st, lambda f: f[0] in ("m_empty", "m_nonempty"))
+        return None
+
+
+class IterLocal:
+    """ITER-2: inside a loop over a hash-ordered collection (trace map, link table) the library only
+    writes counters / link tables / contents of the box named by the current element of an enclosing
+    such loop (or local accumulators); anything else makes the outcome depend on the visiting order."""
+    id = "ITER-2"
+
+    def on_variant(self, eng, st, inner, v, b):
+        if inner[0] != "call" or inner[2] != "core::iter::Iterator::next":
+            return None
+        src = iter_source(inner[3][0])
+        if src is None or src[0] not in ("map", "table"):
+            return None
+        N = inner[1]
+        if v == "1":
+            return add(st, ("hloop", N))
+        if v == "0":
+            return rem(st, lambda f: f == ("hloop", N))
+        return None
+
+    def on_event(self, eng, ev, st):
+        if ev.kind not in ("set", "tblwrite", "moveout", "free"):
+            return None
+        loops = [f[1] for f in st.flags if f[0] == "hloop"]
+        if not loops:
+            return None
+        if ev.kind == "set" or ev.kind == "moveout":
+            box = ev.box
+        elif ev.kind == "tblwrite":
+            box = ev.get("box")
+            if box is None:
+                return None   # local accumulator
+        else:
+            box = ev.ptr
+        eng.obl("ITER-2", "write-in-hash-loop:%s" % ev.kind, ev.b)
+        if box is None:
+            return None
+        ok = any(mentions(box, lambda x, n=n: x[0] == "call" and x[1] == n) for n in loops)
+        if not ok:
+            eng.violate("ITER-2", "non-element-write-in-hash-ordered-loop:%s" % ev.kind, "inside a loop over a hash-ordered collection the library performs `%s` on %s, which is not the element being visited: the result depends on the visiting order" % (ev.kind, show(box)[:80]), ev.b, st)
+        return None
